@@ -36,6 +36,16 @@ def written (log : List Ev) : Bool := (observe log).first.isSome || decide ((obs
 /-- at most one final status is ever forwarded, and none after an accepted body byte -/
 def wellFormed (log : List Ev) : Bool := decide ((observe log).finals ≤ 1) && !(observe log).lateFinal
 
+/-- an optional capability (hijack, push, deadlines, full duplex) must be delegated exactly when the underlying writer -
+    the one the router was given, not a writer it may wrap - offers it, and fail with ErrNotSupported otherwise;
+    `none` for calls that are not capability calls -/
+def capability (sh : Shape) : Call → Option Bool
+  | .hj => some sh.hj | .pu => some sh.pu | .rd => some sh.dl | .wd => some sh.dl | .fd => some sh.fd
+  | _ => none
+
+def showCapability : Option Bool → String
+  | none => "-" | some true => "deleg" | some false => "notsup"
+
 /-- Redirect must accept exactly the codes 300..308 -/
 def redirectOk (code : Nat) : Bool := decide (300 ≤ code) && decide (code ≤ 308)
 
